@@ -529,7 +529,11 @@ class Kernel(Module):
             # Did this Kernel eat the diag option?
             # If it does not return a LazyEvaluatedKernelTensor, we can call diag on the output
             if not isinstance(res, LazyEvaluatedKernelTensor):
-                if res.dim() == x1_.dim() and res.shape[-2:] == torch.Size((x1_.size(-2), x2_.size(-2))):
+                # a full matrix has two more dimensions than the broadcast batch shape (a diagonal has one more)
+                n_batch = len(torch.broadcast_shapes(x1_.shape[:-2], x2_.shape[:-2], self.batch_shape))
+                if last_dim_is_batch:
+                    n_batch += 1
+                if res.dim() == n_batch + 2 and res.shape[-2:] == torch.Size((x1_.size(-2), x2_.size(-2))):
                     res = res.diagonal(dim1=-1, dim2=-2)
             return res
 
